@@ -407,39 +407,56 @@ def DelegatesMut (skel : List Mk) : Bool :=
     | .cancelGuard | .disarm | .gateRead | .gateWrite => false
     | _ => true)
 
-/-- the skeleton `Collection::close` must have for the `closer` machine to be its abstraction -/
-def closeSkeleton : List CollectionGuards.Mk :=
-  [.lcLoad, .lcCas, .roStore, .gateWrite, .lcLoad, .cancelGuard, .call "flush_inner", .awaitPt, .disarm, .lcStore, .poison]
+/-- the shape `Collection::close` must have for the `closer` machine to be its abstraction:
+`load* · CAS · read_only.store · exclusive gate · load+ (the re-check) · cancel_guard · (mutations | awaits)* · disarm ·
+{lifecycle.store, poison}` — no `poison` while armed, nothing that suspends or writes outside the armed region.
+States: 0 start, 1 CAS done, 2 read-only published, 3 gate held, 4 re-checked, 5 armed, 6 disarmed,
+7 stored, 8 poison seen, 9 both outcomes present. -/
+def closeAuto : Nat → List CollectionGuards.Mk → Bool
+  | st, [] => st == 9
+  | 0, .lcLoad :: r => closeAuto 0 r
+  | 0, .lcCas :: r => closeAuto 1 r
+  | 1, .lcLoad :: r => closeAuto 1 r
+  | 1, .roStore :: r => closeAuto 2 r
+  | 2, .gateWrite :: r => closeAuto 3 r
+  | 3, .lcLoad :: r => closeAuto 4 r
+  | 4, .lcLoad :: r => closeAuto 4 r
+  | 4, .cancelGuard :: r => closeAuto 5 r
+  | 5, .mut :: r => closeAuto 5 r
+  | 5, .awaitPt :: r => closeAuto 5 r
+  | 5, .call _ :: r => closeAuto 5 r
+  | 5, .disarm :: r => closeAuto 6 r
+  | 6, .lcStore :: r => closeAuto 7 r
+  | 6, .poison :: r => closeAuto 8 r
+  | 7, .poison :: r => closeAuto 9 r
+  | 8, .lcStore :: r => closeAuto 9 r
+  | _, _ => false
 
-/-- … and `Collection::drop_data` / `begin_delete` for the `dropper` machine -/
+def CloseOK (skel : List CollectionGuards.Mk) : Bool := closeAuto 0 skel
+
+/-- … and `Collection::drop_data` / `begin_delete` for the `dropper` machine (runs of body markers are generated
+as sorted sets, consecutive loads as one) -/
 def dropSkeleton : List CollectionGuards.Mk :=
   [.beginDelete, .gateWrite, .lcLoad, .mut, .awaitPt, .lcStore]
 def beginDeleteSkeleton : List CollectionGuards.Mk := [.lcLoad, .lcCas, .roStore]
 
+/-- the markers between `cancel_guard` and `disarm` -/
+def armedRegion (skel : List CollectionGuards.Mk) : List CollectionGuards.Mk :=
+  ((skel.dropWhile (· ≠ .cancelGuard)).drop 1).takeWhile (· ≠ .disarm)
+
 open CollectionGuards in
-/-- the obligation on one generated method -/
+/-- the obligation on one generated method (`pub` / `pub(crate)`; private helpers are inlined into these
+skeletons by the generator, so a helper that writes is checked at every place it is reached from) -/
 def methodOK (m : Method) : Bool :=
   if !m.reaches then true
   else match m.recv with
     | .shared =>
-        if m.vis == 0 then true   -- private helper: reachable only through the checked callers (see `innerCallersOK`)
-        else if m.name == "close" then m.skel == closeSkeleton
+        if m.name == "close" then CloseOK m.skel
         else if m.name == "drop_data" then m.skel == dropSkeleton
         else GuardOK m.skel || Delegates m.skel
-    | .excl => if m.vis == 0 then true else MutRecvOK m.skel || DelegatesMut m.skel
+    | .excl => MutRecvOK m.skel || DelegatesMut m.skel
     | .none => true     -- constructors `create` / `open`: no handle exists yet
     | .owned => false
-
-open CollectionGuards in
-/-- a private `&self` helper that reaches storage without guarding itself is called only from
-inside `impl Collection`; every caller is (a) self-guarded, close or drop_data — then the call sits in
-the armed region by `GuardOK` — or (b) another private helper (checked recursively by this same
-predicate over the whole table), or (c) a constructor or a `&mut self` method. -/
-def innerCallersOK (m : Method) : Bool :=
-  if !(m.reaches && m.vis == 0 && m.recv == .shared && !GuardOK m.skel) then true
-  else methods.all (fun c =>
-    if !c.calls.contains m.name then true
-    else GuardOK c.skel || c.name == "close" || c.name == "drop_data" || c.vis == 0 || c.recv == .none || c.recv == .excl)
 
 /-! ## database-level marker order (evaluated over `Gen/Lifecycle.db_*`) -/
 
